@@ -91,3 +91,27 @@ Print Assumptions C20_reversed_edge.
 Print Assumptions C20_shared_vertex.
 Print Assumptions C20_tolerance_monotone.
 Print Assumptions C20_closest_approach_is_minimum.
+
+(* ---------------------------------------------------------------------------------------------------------------
+   polygons.intersect (theories/Proof_Polygons.v): the segment test reports exactly the PROPER crossings of segments that are not
+   (nearly) parallel, is symmetric in the two segments, and the polygon test is 'some edge of the first crosses some edge of the
+   second', symmetric in its arguments (closed flags included). *)
+From HT Require Import Proof_Polygons.
+
+Theorem C20_reported_crossing_is_proper : forall p1 p1n p2 p2n, seg_cross p1 p1n p2 p2n = true ->
+  exists s t, 0 < s /\ s < 1 /\ 0 < t /\ t < 1 /\ same_pt (on_seg p1 p1n s) (on_seg p2 p2n t).
+Proof. exact seg_cross_sound. Qed.
+
+Theorem C20_proper_crossings_are_reported : forall p1 p1n p2 p2n s t, det_eps <= Qabs (det4 p1 p1n p2 p2n) ->
+  0 < s -> s < 1 -> 0 < t -> t < 1 -> same_pt (on_seg p1 p1n s) (on_seg p2 p2n t) -> seg_cross p1 p1n p2 p2n = true.
+Proof. exact seg_cross_complete. Qed.
+
+Theorem C20_polygon_intersect_spec : forall c1 c2 w1 w2, poly_intersect c1 c2 w1 w2 = true <->
+  exists e1 e2, In e1 (poly_edges c1 w1) /\ In e2 (poly_edges c2 w2) /\ seg_cross (fst e1) (snd e1) (fst e2) (snd e2) = true.
+Proof. exact poly_intersect_spec. Qed.
+
+Theorem C20_polygon_intersect_symmetric : forall c1 c2 w1 w2, poly_intersect c1 c2 w1 w2 = poly_intersect c2 c1 w2 w1.
+Proof. exact poly_intersect_sym. Qed.
+
+Print Assumptions C20_proper_crossings_are_reported.
+Print Assumptions C20_polygon_intersect_symmetric.
